@@ -95,12 +95,14 @@ class Quantity(DimensionSymbol, SymQuantity):  # type: ignore[misc]  # pylint: d
 # Allows for some SymPy comparisons, eg Piecewise function
 @dispatch(Quantity, Quantity)  # type: ignore[misc]
 def _eval_is_ge(lhs: Quantity, rhs: Quantity) -> Optional[bool]:
-    # Quantities of inequivalent dimensions cannot be ordered: leave the relation undecided, so that
-    # e.g. `Max(5 m, 3 s)` is not evaluated to `5 m` before the dimensions are checked. A zero value
-    # is compatible with any dimension.
+    # Quantities of inequivalent dimensions cannot be ordered: refuse the comparison, as SymPy does
+    # for other invalid comparisons, so that e.g. `Max(5 m, 3 s)` or `Max(-5 m, 3 s)` is evaluated
+    # neither to one of its operands nor by their signs before the dimensions are checked. A zero
+    # value is compatible with any dimension.
     if (not dimsys_SI.equivalent_dims(lhs.dimension, rhs.dimension) and lhs.scale_factor != 0 and
             rhs.scale_factor != 0):
-        return None
+        raise TypeError(f"Invalid comparison of quantities with dimensions '{lhs.dimension}' and "
+            f"'{rhs.dimension}'")
     return scale_factor(lhs) >= scale_factor(rhs)
 
 
